@@ -220,7 +220,8 @@ def run(rep, tier, seed):
                        "nests up to depth 2 (thorough 3) of while/loop, labelled or not, with break/continue "
                        "(plain or to any enclosing label) at every body position; if-chains up to length 3 over the "
                        "truthiness domain with value / valueless / empty bodies; if / match with 7 kinds of bodies in 5 value "
-                       "positions (array element, call argument, operand, let initialiser, map value); distinct = distinct "
+                       "positions (array element, call argument, operand, let initialiser, map value); scrutinees of one kind against range / "
+                       "literal patterns of another (35 scrutinees x 11 pattern sets x with / without default); distinct = distinct "
                        "shape tags")
     rep.cov["exhaustive"] = False
     for it in items[:1] + items[-1:]:
